@@ -50,7 +50,9 @@ Definition produced_for (rs : list reg) (i : inst) (t : ty) (n : nat) (g : grp) 
        negb (g =? 0) && existsb (fun r => existsb (fun '(t', _, g', k) => (t' =? t) && (g' =? g) && out_is_nil r k) (provides r)) rs
   else
   match i with
-  | IVoid => false
+  | IVoid =>
+      (* a `struct{}` value carries no identity: it answers a request for a named initializer that is registered *)
+      (t =? T_VOID) && (g =? 0) && existsb (fun r => existsb (fun '(t', n', g', _) => (t' =? T_VOID) && (n' =? n) && (g' =? 0)) (provides r)) rs
   | IObj rid _ out dyn =>
       match find_reg rs rid with
       | Some r => provides_b r t n g out && (dyn =? nth_default 0 (r_dyn r) out)
@@ -76,7 +78,10 @@ Definition arg_ok (rs : list reg) (lenient : bool) (p : param) (a : aval) : bool
       (d_opt d && (lenient || negb (existsb (fun r => existsb (fun '(t, n, g, _) => (t =? d_ty d) && (n =? dep_name d) && (g =? d_group d)) (provides r)) rs)))
       (* or the providing constructor leaves exactly that output nil *)
       || ((d_group d =? 0) && existsb (fun r => existsb (fun '(t, n, g, k) => (t =? d_ty d) && (n =? d_name d) && (g =? 0) && out_is_nil r k) (provides r)) rs)
-  | PDep d, AInst i => (d_group d =? 0) && produced_for rs i (d_ty d) (d_name d) 0
+  | PDep d, AInst i => (d_group d =? 0) &&
+                       (produced_for rs i (d_ty d) (d_name d) 0
+                        (* the zero value of an optional `struct{}` field is the one value of that type *)
+                        || (match i with IVoid => d_opt d && (d_ty d =? T_VOID) | _ => false end))
   | PDep d, AList l => negb (d_group d =? 0) && forallb (fun i => produced_for rs i (d_ty d) 0 (d_group d)) l
                        && group_in_order rs (d_ty d) (d_group d) l
   | PDep d, ACtx _ => (d_ty d =? T_CTX) && (d_name d =? 0)
@@ -292,9 +297,29 @@ Definition ms_step (ms : mstate) (o : op) (s : list event * result) : mstate :=
   end.
 
 (* run a per-step predicate over a trace; the predicate sees the state before the step *)
+(* A result object all of whose fields are nil "produced no services": by the library's own contract that
+   construction failed (ValidationError), exactly as a single-return constructor returning nil does.  The monitors read
+   such a constructor call as a failed one ([ONil]) - known from the registration: a result object whose declared
+   outputs are all nil. *)
+Definition produces_nothing (r : reg) : bool :=
+  match r_form r with
+  | FResult _ _ ((_ :: _) as fs) _ => forallb (fun k => nth_default 0 (r_dyn r) k =? T_NILOUT) (seq 0 (length fs))
+  | _ => false
+  end.
+Definition all_known_regs (ms : mstate) (o : op) : list reg :=
+  (match o with OAdd r => [r] | OModules mods => flat_map regs_of_module mods | _ => [] end)
+  ++ ms_active ms ++ flat_map snd (ms_regs_of_prov ms).
+Definition norm_event (rs : list reg) (e : event) : event :=
+  match e with
+  | EvCtor rid inv args OOk =>
+      if existsb (fun r => (r_id r =? rid) && produces_nothing r) rs then EvCtor rid inv args ONil else e
+  | _ => e
+  end.
+Definition norm_step (ms : mstate) (o : op) (s : list event * result) : list event * result :=
+  (map (norm_event (all_known_regs ms o)) (fst s), snd s).
 Fixpoint mon_fold (f : mstate -> op -> list event * result -> bool) (ms : mstate) (ops : list op) (tr : trace) : bool :=
   match ops, tr with
-  | o :: ops', s :: tr' => f ms o s && mon_fold f (ms_step ms o s) ops' tr'
+  | o :: ops', s :: tr' => f ms o (norm_step ms o s) && mon_fold f (ms_step ms o (norm_step ms o s)) ops' tr'
   | _, _ => true
   end.
 Definition regs_for (ms : mstate) (p : nat) : list reg :=
@@ -307,6 +332,10 @@ Definition op_prov (o : op) : option nat :=
   end.
 Definition count_ctor (evs : list event) (rid : nat) : nat :=
   length (filter (fun e => match e with EvCtor r _ _ _ => r =? rid | _ => false end) evs).
+(* constructor calls that succeeded (a failed attempt - say inside an optional dependency of another initializer - is not
+   cached, and the retry is a first attempt) *)
+Definition count_ok_ctor (evs : list event) (rid : nat) : nat :=
+  length (filter (fun e => match e with EvCtor r _ _ OOk => r =? rid | _ => false end) evs).
 Definition ctor_rids (evs : list event) : list nat :=
   flat_map (fun e => match e with EvCtor r _ _ _ => [r] | _ => [] end) evs.
 
@@ -383,7 +412,7 @@ Definition step_C02 (ms : mstate) (o : op) (s : list event * result) : bool :=
       (* initializers: exactly once, when the scope is created *)
       && match o with
          | OCreateScope _ _ _ | OBuild _ =>
-             forallb (fun rg => negb (is_init_reg rg) || (count_ctor evs (r_id rg) =? 1)) rs
+             forallb (fun rg => negb (is_init_reg rg) || (count_ok_ctor evs (r_id rg) =? 1)) rs
          | _ => forallb (fun rid => match find_reg rs rid with Some rg => negb (is_init_reg rg) | None => true end) (ctor_rids evs)
          end
   end.
@@ -829,7 +858,7 @@ Definition holds_C18 (ops : list op) (tr : trace) : bool := mon_fold step_C18 ms
 (* diagnostics: index (from 1) of the first step on which a step predicate fails; 0 = none *)
 Fixpoint mon_first (f : mstate -> op -> list event * result -> bool) (n : nat) (ms : mstate) (ops : list op) (tr : trace) : nat :=
   match ops, tr with
-  | o :: ops', s :: tr' => if f ms o s then mon_first f (S n) (ms_step ms o s) ops' tr' else n
+  | o :: ops', s :: tr' => if f ms o (norm_step ms o s) then mon_first f (S n) (ms_step ms o (norm_step ms o s)) ops' tr' else n
   | _, _ => 0
   end.
 
